@@ -312,7 +312,8 @@ def run(ctx):
     from rules import C18 as _c18
     from ovsa.engine import Ctx as _Ctx
     sub18 = _Ctx("C18", prog, ctx.root, "quick")
-    getattr(_c18, "_run_base", _c18.run)(sub18)
+    from rules.round3 import run_lender as _run_lender
+    _run_lender(_c18, sub18, ctx)
     n124 = 0
     for i_ in sub18.instances:
         if i_["rule"] != "R18.1" or not i_["inst"].endswith("handled-is-declared"):
@@ -454,3 +455,8 @@ def run(ctx):
              "ovni.app_id (0) or an invalid one")
     from rules import round5
     round5.check_appid_required(ctx, "R12.9")
+    ctx.rule("R12.10", "rank information is complete or refused: a stream with ovni.rank but without ovni.nranks fails "
+             "(C15 R15.4's load_rank instances)")
+    from rules import round6
+    round6.share(ctx, "R12.10", "C15", lambda i_: i_["rule"] == "R15.4" and i_["inst"].startswith("load_rank"), "rank:",
+                 "a stream that lost the mandatory ovni.nranks key is accepted", 4)
